@@ -255,7 +255,7 @@ func main() {
 		Plan: func(tier string, seed int64) []kit.Batch {
 			nb, n, nreq := 16, 12, 400
 			if tier == "thorough" {
-				nb, n, nreq = 48, 150, 800
+				nb, n, nreq = 48, 100, 800
 			}
 			var bs []kit.Batch
 			for i := 0; i < nb; i++ {
